@@ -23,10 +23,10 @@ RULE = ('cases = inference-model spec (bounded/unbounded/hierarchical/exponentia
         'non-trivial = at least 2 populations returned')
 ASSUMPTIONS = ['thresholds are chosen from a pilot run so that acceptance is well above 1% (the sampler retries for ever by design)']
 CONFIG = {
-    'quick': {'shards': 16, 'cases': 4, 'timeout': 900, 'floor': 20},
+    'quick': {'shards': 16, 'cases': 3, 'timeout': 900, 'floor': 15},
     'thorough': {'shards': 32, 'cases': 50, 'timeout': 3400, 'floor': 500},
 }
-REQUIRED = ['populations_checked', 'weights_compared', 'cov_compared', 'threshold_user', 'threshold_quantile', 'continued_runs',
+REQUIRED = ['contract_weighted_var', 'contract_rvs', 'contract_logpdf', 'contract_weighted_sample_quantile', 'populations_checked', 'weights_compared', 'cov_compared', 'threshold_user', 'threshold_quantile', 'continued_runs',
             'prior_hier', 'prior_bounded', 'prior_unbounded', 'n_sim_checked']
 
 
@@ -104,12 +104,17 @@ def run_case(ctx, case):
         return upd(batch, batch_index)
     smc.update = counting_update
     kw = case['kw']
-    res = smc.sample(N, bar=False, **kw)
-    kwall = dict(kw)
-    if 'cont' in case:
-        res = smc.sample(N, bar=False, **case['cont'])
-        kwall = {k: list(kw[k]) + list(case['cont'][k]) for k in kw}
-        ctx.event('continued_runs')
+    # the C13 contracts (weighted quantile / variance / mixture density / constrained sampler) stay attached to the real
+    # functions while the sampler uses them internally
+    from vmon import contracts
+    from vmon.props import c13
+    with contracts.attached(ctx, *c13.specs(ctx)):
+        res = smc.sample(N, bar=False, **kw)
+        kwall = dict(kw)
+        if 'cont' in case:
+            res = smc.sample(N, bar=False, **case['cont'])
+            kwall = {k: list(kw[k]) + list(case['cont'][k]) for k in kw}
+            ctx.event('continued_runs')
     mode = 'thresholds' if 'thresholds' in kwall else 'quantiles'
     pops = res.populations
     nr = len(kwall[mode])
